@@ -262,6 +262,13 @@ def producers(rep):
                        {"L": L[:80], "R": R[:80], "K": k[:80]})
                 if core:
                     rep.ob("O10.2", "SIB", fi, "get_rc(" in k, f"core=True: K = {k[:60]}", "with core=True the rule is written from the reaction centre")
+                    # ... the centre as get_rc defines it by default (what rsmi_to_its(core=True) and a caller's own get_rc(its) produce): an exporter
+                    # that asks for another centre (disconnected=True, other keys) no longer agrees with a rule exported from a supplied centre
+                    for gc in [x for x in walk_local(fi.node) if isinstance(x, ast.Call) and call_name(x) == "get_rc"]:
+                        extra = {kk.arg: norm(kk.value) for kk in gc.keywords if kk.arg} if not any(kk.arg is None for kk in gc.keywords) else None
+                        extra_pos = len(gc.args) > 1
+                        okg = None if (extra is None or extra_pos) else (not {a_: v_ for a_, v_ in extra.items() if v_ not in ("False", "None")})
+                        rep.ob("O10.2", "SIB", fi, okg, gc, "the exported centre is get_rc's default centre (no option that changes which atoms / bonds belong to it)", node=gc)
         rep.need("SIB", n_paths, 2, f"paths through {q} that reach NXToGML.transform")
     # both producers forward the same options
     extras_by_q = {}
